@@ -6,6 +6,7 @@ import hashlib
 import os
 import random
 import shutil
+import time
 from collections import Counter
 from pathlib import Path
 
@@ -87,7 +88,7 @@ def mutator_ops(rnd):
 
 
 class Site:
-    def __init__(self, base, seed, pack_target):
+    def __init__(self, base, seed, pack_target, reader=False):
         from disk_objectstore import Container  # pylint: disable=import-outside-toplevel
 
         self.Container = Container
@@ -111,6 +112,17 @@ class Site:
                 d = self.new()
                 self.acked[cont.add_object(d)] = d
         cont.close()
+        # a long-lived reader: it read a packed object once and keeps its handle (and index connection) open all along, as
+        # any application does; with it no client ever is "the last connection", so SQLite never checkpoints the WAL
+        self.reader = None
+        if reader:
+            self.reader = Container(self.root)
+            self.reader.get_object_content(next(iter(self.acked)))
+
+    def close_reader(self):
+        if self.reader is not None:
+            self.reader.close()
+            self.reader = None
 
     def new(self):
         self.n += 1
@@ -179,6 +191,18 @@ def judge(site, backup_dir, at_start, tag):
     return probs
 
 
+def take_previous(site, counters):
+    """A previous, undisturbed backup (the next one is incremental on top of it through rsync --link-dest)."""
+    from disk_objectstore import backup_utils  # pylint: disable=import-outside-toplevel
+
+    manager = backup_utils.BackupManager(site.dest)
+    cont0 = site.Container(site.root)
+    manager.backup_auto_folders(lambda path, prev: backup_utils.backup_container(manager, cont0, path, prev))
+    cont0.close()
+    site.previous_taken = True
+    counters['previous-backups-taken'] += 1
+
+
 def one_backup(site, plan, mut_ops, incremental, counters):
     """plan: list of (point_index, n_events) - advance the mutator by n events when the backup is parked at that point.
     Returns (problems, info)."""
@@ -188,16 +212,9 @@ def one_backup(site, plan, mut_ops, incremental, counters):
     hooks = PhaseHooks(ref)
     box = {'error': None, 'dir': None, 'at_start': None, 'bdone': False}
     manager = backup_utils.BackupManager(site.dest)
-    if incremental:
-        cont0 = site.Container(site.root)
-        manager.backup_auto_folders(lambda path, prev: backup_utils.backup_container(manager, cont0, path, prev))
-        cont0.close()
-        counters['previous-backups-taken'] += 1
-        # the previous backup is not "the same second" old: rsync's quick check (size + whole-second mtime) would otherwise
-        # take the previous index dump for the new one when both happen to have the same size
-        prev_idx = os.path.join(os.path.realpath(os.path.join(site.dest, 'last-backup')), 'packs.idx')
-        st = os.stat(prev_idx)
-        os.utime(prev_idx, (st.st_atime - 30, st.st_mtime - 30))
+    if incremental and not getattr(site, 'previous_taken', False):
+        take_previous(site, counters)
+        time.sleep(1.1)
 
     def backup():
         cont = site.Container(site.root)
@@ -272,6 +289,7 @@ def run_cases(case):  # noqa: C901
         target = case.get('target') or rnd.choice([600, 4 * 1024 ** 3])
         mut_ops = case.get('mut_ops') or mutator_ops(rnd)
         incremental = case.get('incremental', rnd.random() < 0.3)
+        reader = case.get('reader', rnd.random() < 0.5)
         # count the mutator's boundaries once (no backup running)
         probe_site = Site(os.path.join(base, 'probe'), seed, target)
         rec = iotrace.Recorder()
@@ -314,8 +332,20 @@ def run_cases(case):  # noqa: C901
                 p2 = rnd.randrange(p1 + 1, NPOINTS)
                 k1 = rnd.randrange(1, K)
                 plans.append([(p1, k1), (p2, rnd.choice([rnd.randrange(1, K), K + 5]))])
+        # build every site first and take the previous backups, then let real time pass ONCE: rsync's quick check compares size and
+        # whole-second mtime, so an incremental backup must not start in the same second as the previous one (test artefact otherwise)
+        sites = []
         for i, plan in enumerate(plans):
-            site = Site(os.path.join(base, f's{i}'), seed, target)
+            site = Site(os.path.join(base, f's{i}'), seed, target, reader=reader)
+            if reader:
+                counters['sites-with-a-long-lived-reader'] += 1
+            if incremental:
+                take_previous(site, counters)
+            sites.append(site)
+        if incremental:
+            time.sleep(1.2)
+        for i, plan in enumerate(plans):
+            site = sites[i]
             try:
                 probs, info = one_backup(site, plan, [tuple(o) for o in mut_ops], incremental, counters)
             except sched.Deadlock as exc:
@@ -325,10 +355,11 @@ def run_cases(case):  # noqa: C901
             counters[f'placement-at-point:{plan[0][0]}'] += 1
             seen.add(common.digest([plan, mut_ops, target, incremental]))
             for mech, msg in probs[:2]:
-                vios.append(common.violation(mech, msg, {'backup': {'seed': seed, 'target': target, 'mut_ops': mut_ops,
+                vios.append(common.violation(mech, msg, {'backup': {'seed': seed, 'target': target, 'mut_ops': mut_ops, 'reader': reader,
                                                                       'incremental': incremental, 'plans': [plan]}}))
             if sample is None and len(plan) > 1:
                 sample = {'plan': plan, 'mutator': mut_ops, 'mutator_boundaries': K, 'incremental': incremental, 'backup_trace': info['trace']}
+            site.close_reader()
             common.rmtree(site.base)
             if len(vios) >= 6:
                 break
